@@ -133,6 +133,82 @@ theorem lt_transitive (ext : Ext) {a b c : S} {x y z : Cls}
   simp only [isTrue, h1, h2, h3, OpR.val.injEq, S.bool.injEq, decide_eq_true_eq]
   exact lt_trans
 
+/-! ### `=` is an equivalence compatible with `<`; `<=` is a total preorder whose symmetric part is `=` -/
+
+/-- `=` is reflexive, symmetric and transitive on non-blank scalars -/
+theorem eq_equivalence (ext : Ext) {a b c : S} {x y z : Cls}
+    (ha : cls a = some x) (hb : cls b = some y) (hc : cls c = some z) :
+    isTrue (binop ext .eq a a) ∧
+    (isTrue (binop ext .eq a b) → isTrue (binop ext .eq b a)) ∧
+    (isTrue (binop ext .eq a b) → isTrue (binop ext .eq b c) → isTrue (binop ext .eq a c)) := by
+  have h0 := (cmp_refines ext ha ha).2.2.1
+  have h1 := (cmp_refines ext ha hb).2.2.1
+  have h2 := (cmp_refines ext hb ha).2.2.1
+  have h3 := (cmp_refines ext hb hc).2.2.1
+  have h4 := (cmp_refines ext ha hc).2.2.1
+  simp only [isTrue, h0, h1, h2, h3, h4, OpR.val.injEq, S.bool.injEq, decide_eq_true_eq]
+  exact ⟨trivial, fun h => h.symm, fun h g => h.trans g⟩
+
+/-- values that compare equal are indistinguishable by `<` and `>` against any third value -/
+theorem eq_congruence (ext : Ext) {a b c : S} {x y z : Cls}
+    (ha : cls a = some x) (hb : cls b = some y) (hc : cls c = some z)
+    (he : isTrue (binop ext .eq a b)) :
+    binop ext .lt a c = binop ext .lt b c ∧ binop ext .lt c a = binop ext .lt c b ∧
+    binop ext .eq a c = binop ext .eq b c := by
+  have h1 := (cmp_refines ext ha hb).2.2.1
+  simp only [isTrue, h1, OpR.val.injEq, S.bool.injEq, decide_eq_true_eq] at he
+  subst he
+  rw [(cmp_refines ext ha hc).1, (cmp_refines ext hb hc).1, (cmp_refines ext hc ha).1,
+    (cmp_refines ext hc hb).1, (cmp_refines ext ha hc).2.2.1, (cmp_refines ext hb hc).2.2.1]
+  exact ⟨rfl, rfl, rfl⟩
+
+/-- `<=` is total, transitive, and `a<=b ∧ b<=a` is exactly `a=b` -/
+theorem le_total_preorder (ext : Ext) {a b c : S} {x y z : Cls}
+    (ha : cls a = some x) (hb : cls b = some y) (hc : cls c = some z) :
+    (isTrue (binop ext .le a b) ∨ isTrue (binop ext .le b a)) ∧
+    (isTrue (binop ext .le a b) → isTrue (binop ext .le b c) → isTrue (binop ext .le a c)) ∧
+    (isTrue (binop ext .le a b) ∧ isTrue (binop ext .le b a) ↔ isTrue (binop ext .eq a b)) := by
+  have h1 := (cmp_refines ext ha hb).2.2.2.2.1
+  have h2 := (cmp_refines ext hb ha).2.2.2.2.1
+  have h3 := (cmp_refines ext hb hc).2.2.2.2.1
+  have h4 := (cmp_refines ext ha hc).2.2.2.2.1
+  have h5 := (cmp_refines ext ha hb).2.2.1
+  simp only [isTrue, h1, h2, h3, h4, h5, OpR.val.injEq, S.bool.injEq, decide_eq_true_eq,
+    Bool.or_eq_true]
+  have L : ∀ {p q : Cls}, Cls.ltb p q = true ↔ Cls.lt p q := fun {p q} => Iff.rfl
+  refine ⟨?_, ?_, ?_⟩
+  · rcases lt_trichotomous x y with h | h | h
+    · exact Or.inl (Or.inl h)
+    · exact Or.inl (Or.inr h)
+    · exact Or.inr (Or.inl h)
+  · rintro (h | h) (g | g)
+    · exact Or.inl (lt_trans h g)
+    · subst g; exact Or.inl h
+    · subst h; exact Or.inl g
+    · exact Or.inr (h.trans g)
+  · constructor
+    · rintro ⟨h | h, g | g⟩
+      · exact absurd g (lt_asymm h)
+      · exact g.symm
+      · exact h
+      · exact h
+    · intro h; exact ⟨Or.inr h, Or.inr h.symm⟩
+
+/-- `>=` is the negation of `<`, `<=` the negation of `>` -/
+theorem ge_iff_not_lt (ext : Ext) {a b : S} {x y : Cls} (ha : cls a = some x) (hb : cls b = some y) :
+    (isTrue (binop ext .ge a b) ↔ ¬ isTrue (binop ext .lt a b)) ∧
+    (isTrue (binop ext .le a b) ↔ ¬ isTrue (binop ext .gt a b)) := by
+  obtain ⟨h1, h2, _, _, h5, h6⟩ := cmp_refines ext ha hb
+  simp only [isTrue, h1, h2, h5, h6, OpR.val.injEq, S.bool.injEq, decide_eq_true_eq, Bool.or_eq_true]
+  rcases lt_trichotomous x y with h | h | h
+  · have := lt_asymm h
+    exact ⟨⟨fun g => g.elim (fun g => absurd g this) (fun g => absurd (g ▸ h) (lt_irrefl _)), fun g => absurd h g⟩,
+           ⟨fun _ => this, fun _ => Or.inl h⟩⟩
+  · subst h; exact ⟨⟨fun _ => lt_irrefl x, fun _ => Or.inr rfl⟩, ⟨fun _ => lt_irrefl x, fun _ => Or.inr rfl⟩⟩
+  · have := lt_asymm h
+    exact ⟨⟨fun _ => this, fun _ => Or.inl h⟩,
+           ⟨fun g => g.elim (fun g => absurd g this) (fun g => absurd (g ▸ h) (lt_irrefl _)), fun g => absurd h g⟩⟩
+
 /-- numbers (dates as serials) order numerically; texts order case-insensitively; every number is
     below every text, every text below FALSE, FALSE below TRUE -/
 theorem order_classes (ext : Ext) (p q : Num) (d : Rat) (s t : List Char) :
